@@ -140,3 +140,9 @@ UNITS += [http_write]
 # is consumed completely so that the next request on a kept-alive connection starts at its request line) is part of this property too
 from units.C09 import read_body_loop as _rbl, read_body_outer as _rbo, read_headers as _rh
 UNITS += [_rbl, _rbo, _rh]
+
+# replay: the native counterpart of the loop-turn units is the driver's battery: the real HttpRequest reader fed through a socketpair with six requests on one connection
+# (Content-Length and chunked bodies with binary content, folded headers), delivered whole, cut at request boundaries, cut every 97/333/1000 bytes, cut inside a chunk
+for _u in UNITS:
+    if not _u.replay:
+        _u.replay = replay.battery('C10/driver.cpp', ['battery'])
